@@ -165,13 +165,21 @@ def run_chunk(ctx, name, k, reqs, budget_ms):
             tr = ctx.path("trace", "%s_%d_%d.part" % (name, k, part))
             with open(inp, "w") as f:
                 for r in reqs[start:]:
-                    f.write(json.dumps(r) + "\n")
+                    # big inputs get more time: 1 ms per 5 bytes on top of the base budget
+                    size = len(r.get("text", "")) + sum(len(v) for v in r.get("files", {}).values())
+                    f.write(json.dumps(dict(r, budget_ms=budget_ms + size // 5)) + "\n")
             try:
                 p = subprocess.run([VHF, "--in", inp, "--trace-out", tr, "--budget-ms", str(budget_ms)],
                                    capture_output=True, text=True, timeout=3600)
             except subprocess.TimeoutExpired:
                 raise common.ToolError("vh-feaparse did not finish chunk %s_%d" % (name, k))
-            outs = [json.loads(l) for l in p.stdout.splitlines() if l.startswith("{")]
+            outs = []
+            for l in p.stdout.splitlines():
+                if l.startswith("{"):
+                    try:
+                        outs.append(json.loads(l))
+                    except ValueError:
+                        break       # the process died while writing (a block-buffered partial line)
             if p.returncode > 0 or (not outs and p.returncode == 0):
                 raise common.ToolError("vh-feaparse failed (rc %d): %s" % (p.returncode, p.stderr[-400:]))
             outs = outs[: len(reqs) - start]
@@ -257,8 +265,9 @@ class Runner:
         self.lock = threading.Lock()
         self.nbatch = 0
         self.pending = []
+        self.confirmed_bad = 0
         self.sampled = False
-        self.max_confirm = 4 if ctx.quick else 12   # a stuck parser allocates ~30 MB/s and costs a minute to name
+        self.max_confirm = 4 if ctx.quick else 8    # per batch; a stuck parser allocates ~30 MB/s and costs a minute to name
 
     def run(self, name, reqs, procs=8, budget_ms=BUDGET_MS):
         """returns the list of results (aligned with reqs)"""
@@ -319,9 +328,11 @@ class Runner:
             elif v == "errors":
                 st["validated_errors"] += 1
             elif v == "panic":
-                self.find.add("validate-panic:%s:%s" % (short_loc(o.get("validate_loc", "")), norm_msg(o.get("validate_msg"))),
-                              "validation of an error-free parse tree panicked: %s at %s; input %s" %
-                              (o.get("validate_msg"), o.get("validate_loc"), show(q)), q, size)
+                cause = "bare-range" if o.get("bare_range") else "-"
+                self.find.add("validate-panic:%s:%s:%s" % (cause, short_loc(o.get("validate_loc", "")), norm_msg(o.get("validate_msg"))),
+                              "validation of an error-free parse tree%s panicked: %s at %s; input %s" %
+                              (" (with a glyph range outside a glyph class)" if o.get("bare_range") else "",
+                               o.get("validate_msg"), o.get("validate_loc"), show(q)), q, size)
             if str(o.get("format", "ok")).startswith("panic"):
                 st["format_panics"] += 1
                 ctx.drift("diagnostic-format", "formatting the diagnostics of %s panicked: %s" % (show(q), o["format"][:200]))
@@ -354,7 +365,9 @@ class Runner:
         finish is a violation (named after its minimised form), what finishes is classified normally."""
         ctx, st = self.ctx, self.stats
         pending, self.pending = self.pending, []
-        todo = pending[: max(0, self.max_confirm - st["timeouts_retried"])]
+        # per batch: every kind of trouble gets its chance (crashes are cheap to confirm, hangs are not)
+        todo = ([x for x in pending if x[1].get("outcome") == "crash"][:4] +
+                [x for x in pending if x[1].get("outcome") == "timeout"][: self.max_confirm])
         st["timeouts_retried"] += len(todo)
         st["timeouts_not_retried"] += len(pending) - len(todo)
 
@@ -370,6 +383,8 @@ class Runner:
             settled = list(ex.map(settle, todo))
         for q, o, o2, site in settled:
             size = len(q.get("text", "")) if q["op"] == "parse" else sum(len(v) for v in q.get("files", {}).values())
+            if o2.get("outcome") in ("timeout", "crash"):
+                self.confirmed_bad += 1
             if o2.get("outcome") == "timeout":
                 if o2.get("phase") not in ("parse", "validate"):
                     raise common.ToolError("harness too slow projecting %s (phase %s)" % (show(q), o2.get("phase")))
@@ -534,17 +549,31 @@ def gen_texts(ctx, alpha, maxlen, fulllen, keep, tag):
     lex = common.replay_lines(r.out, marker="LEX")
     if not lex:
         raise common.ToolError("FeaParseGen printed no alphabet")
-    lex = [urllib.parse.unquote_to_bytes(x).decode("utf-8") for x in lex[0]]
+    dec = lambda x: urllib.parse.unquote_to_bytes(x).decode("utf-8")
     texts = []
     pat = re.compile(r'^<<"R", (\d), <<(.*)>>>>$')
+    rows = []
     for line in r.out.splitlines():
         m = pat.match(line)
         if m:
-            idx = [int(x) for x in m.group(2).split(",")] if m.group(2).strip() else []
-            texts.append((" " if m.group(1) == "1" else "").join(lex[i - 1] for i in idx))
+            rows.append((m.group(1), [int(x) for x in m.group(2).split(",")] if m.group(2).strip() else []))
+    if alpha == "rules":
+        items = [dec(x) for x in lex[0]["items"]]
+        templates = [dec(x) for x in lex[0]["templates"]]
+        prefix, suffix = dec(lex[0]["prefix"]), dec(lex[0]["suffix"])
+        for _, (t, x, y, z) in rows:
+            rule = templates[t - 1]
+            rule = re.sub(r"\b[XYZ]\b", lambda m: items[{"X": x, "Y": y, "Z": z}[m.group(0)] - 1], rule)
+            texts.append(prefix + rule + suffix)
+        nlex = len(items)
+    else:
+        lex = [dec(x) for x in lex[0]["alpha"]]
+        for j, idx in rows:
+            texts.append((" " if j == "1" else "").join(lex[i - 1] for i in idx))
+        nlex = len(lex)
     if len(texts) != r.distinct:
         raise common.ToolError("FeaParseGen: %d texts parsed from %d states" % (len(texts), r.distinct))
-    return texts, len(lex)
+    return texts, nlex
 
 
 def corpus_files():
@@ -758,7 +787,7 @@ def main(ctx):
         return replay_one(ctx)
     rng = random.Random(ctx.seed * 7919 + 13)
     runner = Runner(ctx)
-    bg = concurrent.futures.ThreadPoolExecutor(5)
+    bg = concurrent.futures.ThreadPoolExecutor(6)
 
     # (D) design level, in the background
     def design_sink():
@@ -787,17 +816,20 @@ def main(ctx):
     common.log("generating lexeme strings with TLC")
     if quick:
         f_ext = bg.submit(gen_texts, ctx, "ext", 2, 2, 10000, "gen_ext")
+        f_rules = bg.submit(gen_texts, ctx, "rules", 0, 0, 1000, "gen_rules")
         main_texts, nmain = gen_texts(ctx, "main", 4, 2, 220, "gen_main")
         ext_texts, next_ = f_ext.result()
         sampled = True
     else:
         f_ext = bg.submit(gen_texts, ctx, "ext", 3, 2, 2000, "gen_ext")
+        f_rules = bg.submit(gen_texts, ctx, "rules", 0, 0, 10000, "gen_rules")
         f_m5 = bg.submit(gen_texts, ctx, "main", 5, 0, 150, "gen_main5")
         main_texts, nmain = gen_texts(ctx, "main", 4, 4, 10000, "gen_main")
         ext_texts, next_ = f_ext.result()
         main_texts = main_texts + f_m5.result()[0]
         sampled = False
-    texts = list(dict.fromkeys(main_texts + ext_texts))
+    rule_texts, _ = f_rules.result()
+    texts = list(dict.fromkeys(main_texts + ext_texts + rule_texts))
     common.log("%d distinct texts (%d lexeme classes main, %d extended)" % (len(texts), nmain, next_))
     ev.sample({"kind": "enumerated texts", "examples": [texts[i] for i in sorted(rng.sample(range(len(texts)), 5))]})
     wave = 120000
@@ -864,6 +896,10 @@ def main(ctx):
     runner.find.report(ctx)
 
     st = runner.stats
+    if (st.get("skipped_after_repeated_timeouts_or_crashes") or st["timeouts_not_retried"]) and not runner.confirmed_bad:
+        raise common.ToolError("%d inputs timed out or crashed without being re-run and %d were skipped, but no timeout or "
+                               "crash was confirmed: nothing can be concluded" %
+                               (st["timeouts_not_retried"], st.get("skipped_after_repeated_timeouts_or_crashes", 0)))
     ev.traces = st["records_validated"]
     ev.evaluations = st["parses"] + st["validated_ok"] + st["validated_errors"]
     ev.rule = ("inputs: TLC-enumerated lexeme strings (FeaParseGen.tla), the fea-rs test corpus and seeded char/byte-level "
@@ -874,6 +910,7 @@ def main(ctx):
     ev.exhaustive = False
     ev.extra["bounds"] = {
         "lexeme_strings": {"main_classes": nmain, "ext_classes": next_, "texts": n_enum, "sampled": sampled,
+                           "rule_programs": len(rule_texts),
                            "main_max_len": 4 if quick else 5, "ext_max_len": 2 if quick else 3,
                            "each_with_and_without_glyph_map": True},
         "corpus_and_mutants": n_corpus,
